@@ -528,7 +528,7 @@ def _affine_surface_shapes(tier):
            dict(pu=1, pv=1, mu=[], mv=[], rational=True, ab='sym', query='insert_u')]
     if tier == 'thorough':
         out += [dict(pu=3, pv=2, mu=[1], mv=[1], rational=False, ab='sym', query='derivatives'),
-                dict(pu=2, pv=2, mu=[], mv=[], rational=True, ab='sym', query='derivatives'),
+                dict(pu=2, pv=1, mu=[], mv=[], rational=True, ab='sym', query='derivatives'),
                 dict(pu=2, pv=3, mu=[1], mv=[1], rational=False, ab='sym', query='insert_uv'),
                 dict(pu=2, pv=1, mu=[1], mv=[], rational=True, ab='sym', query='insert_v')]
     return out
